@@ -296,6 +296,31 @@ def check_c12(params, out):
             if b is not None and at_exit[key] > max(b, 0) + n:
                 bad.append(("%s=%d but %d trials %s at loop exit with n_workers=%d" % (field, b, at_exit[key], key, n),
                             dict(check="overshoot", field=field)))
+    # ---- failures: harness-side ground truth (the scripted world knows which jobs ended Failed while a poll of
+    # the loop was looking) against TuningStatus.num_trials_failed and the max_failures rule --------------------------
+    if out.get("failed_in_poll") is not None and out["outcome"][0] != "aborted":
+        poll_pos = [i for i, ev in enumerate(tr) if ev[0] == "b_fetch"]
+        truth = {}
+        # an exception raised INSIDE the last poll (no event of the scheduling phase follows it) ends the loop before
+        # the statuses of that poll are recorded
+        after_last = tr[poll_pos[-1]:] if poll_pos else []
+        poll_finished = any(ev[0] in ("s_suggest", "cb_sleep", "cb_loop_end", "b_busy") for ev in after_last)
+        by_exception = out["outcome"][0] not in ("normal", "failure_limit") or out.get("replaced_exception")
+        aborted_poll = len(poll_pos) if (by_exception and not poll_finished) else None
+        for t, k in out["failed_in_poll"]:
+            if k == aborted_poll:
+                continue  # an exception ended the loop inside that poll, before the status was recorded
+            truth[t] = poll_pos[k - 1] if 0 < k <= len(poll_pos) else 0
+        # a trial that is resumed afterwards is in progress again (only possible after the scheduler's own PAUSE)
+        still_failed = sorted(t for t, pos in truth.items()
+                              if not any(ev[0] == "b_resume" and ev[1] == t for ev in tr[pos:]))
+        if c["failed"] != len(still_failed):
+            bad.append(("jobs of trials %s ended Failed under the eyes of the tuning loop (and were not resumed) but "
+                        "num_trials_failed = %d; status map %s" % (still_failed, c["failed"], smap),
+                        dict(check="failure_count", failed_jobs=min(len(still_failed), 3), counted=min(c["failed"], 3))))
+        elif len(still_failed) > params["max_failures"] and (out["outcome"][0] != "failure_limit" or out["outcome"][1] not in truth):
+            bad.append(("%d failed jobs > max_failures=%d but run() ended with %s" % (len(still_failed), params["max_failures"], out["outcome"]),
+                        dict(check="failure_limit", outcome=out["outcome"][0], truth="scripted_jobs")))
     # ---- failure limit -------------------------------------------------------------------------------
     if c["failed"] > params["max_failures"]:
         o = out["outcome"]
